@@ -227,7 +227,7 @@ def mAddFuel : Nat → St → St
           -- set_running_or_notify_cancel() is false: forget the item, look at the next id
           mAddFuel fuel { s with workIds := rest, pending := s.pending.erase i }
         else
-          { (setFut s i .running) with workIds := rest, running := s.running ++ [i], mpc := .addAcq i }
+          setFut { s with workIds := rest, running := s.running ++ [i], mpc := .addAcq i } i .running
 
 def mAdd (s : St) : St := mAddFuel (s.workIds.length + 1) s
 
@@ -263,8 +263,8 @@ def mProcess (s : St) (r : Option RMsg) : St :=
   | some .rtb => mAfterItem s      -- unreachable: `rtb` takes the broken branch
   | some (.res i isExc _) =>
       if i ∈ s.pending then
-        mAfterItem { (setFut s i (if isExc then .excWorker else .value)) with
-                     pending := s.pending.erase i, running := s.running.erase i }
+        mAfterItem (setFut { s with pending := s.pending.erase i, running := s.running.erase i } i
+                             (if isExc then .excWorker else .value))
       else mAfterItem s
   | some (.pid p) => { s with mpc := .pidAcq p }
 
@@ -300,8 +300,7 @@ def mAfterPut (s : St) (k n sent cool : Nat) : St :=
 /-- `flag_executor_shutting_down` after its lock section, then the end of the loop body -/
 def mAfterFlag (s : St) : St :=
   if s.killFlag then
-    let s := { (failAll s s.pending .excShutdown) with pending := [] }
-    mKillNext s
+    mKillNext (failAll { s with pending := [] } s.pending .excShutdown)
   else if s.pending = [] then mJoinStart s
   else mAdd s
 
@@ -329,8 +328,8 @@ def setU (s : St) (k : Nat) (pc : UPc) : St := { s with upc := upd s.upc k pc }
 /-- fetch the next script operation of user `k` and announce it -/
 def uNext (s : St) (k : Nat) : St :=
   match s.uscript k with
-  | op :: rest => { (setU s k .api) with uscript := upd s.uscript k rest, ucur := upd s.ucur k (some op) }
-  | [] => { (setU s k .done) with ucur := upd s.ucur k none }
+  | op :: rest => setU { s with uscript := upd s.uscript k rest, ucur := upd s.ucur k (some op) } k .api
+  | [] => setU { s with ucur := upd s.ucur k none } k .done
 
 /-- a user thread lets go of its reference to the executor (end of a method call, or `drop`);
     the weak-reference callback runs in that thread if this was the last one -/
@@ -449,7 +448,7 @@ def stepF (s : St) (v : Variant) : Option St :=
   -- `_on_queue_feeder_error`: give the slot back, fail the future, wake the manager
   | .errSem w, .ok =>
       let s := { s with cqSem := s.cqSem + 1 }
-      let s := if w ∈ s.pending then { (setFut s w .excFeeder) with pending := s.pending.erase w } else s
+      let s := if w ∈ s.pending then setFut { s with pending := s.pending.erase w } w .excFeeder else s
       some { s with running := s.running.erase w, fpc := .errAcq }
   | .errAcq, .ok => (acq s.shut).map fun x =>
       { s with shut := x, oShut := some (.F), fpc := if s.wakeupClosed then .errRel else .errWake }
@@ -505,10 +504,10 @@ def stepM (s : St) (v : Variant) : Option St :=
   | .brkAcq b, .ok => (acq s.shut).map fun x =>
       { s with shut := x, oShut := some (.M), shutdownFlag := true, broken := some b, mpc := .brkRel b }
   | .brkRel b, .ok =>
-      let s := { s with shut := s.shut + 1, oShut := none }
-      let s := { (failAll s s.pending (if b == .terminated then .excTerminated else .excBroken)) with pending := [] }
-      some (mKillNext s)
-  | .kill p, .ok => some { (if alive s p then die s p (-9) else s) with mpc := .killJoin p }
+      some (mKillNext (failAll { s with shut := s.shut + 1, oShut := none, pending := [] } s.pending
+                                (if b == .terminated then .excTerminated else .excBroken)))
+  | .kill p, .ok =>
+      some (if alive s p then die { s with mpc := .killJoin p } p (-9) else { s with mpc := .killJoin p })
   | .killJoin p, .ok => if isDead s p then some (mKillNext s) else none
   -- join_executor_internals
   | .jAcq1, .ok => (acq s.mgmt).map fun x => mRelExitNext { s with mgmt := x, oMgmt := some (.M) } s.procDict 0
@@ -550,7 +549,7 @@ def uDispatch (s : St) (k : Nat) (op : UOp) : St :=
       match widOfTask s t with
       | some w =>
           match futOf s w with
-          | .pending => uNext { (setFut s w .cancelled) with cancelOk := s.cancelOk ++ [w] } k
+          | .pending => uNext (setFut { s with cancelOk := s.cancelOk ++ [w] } w .cancelled) k
           | .cancelled => uNext { s with cancelOk := s.cancelOk ++ [w] } k
           | _ => uNext s k
       | none => uNext s k
@@ -558,15 +557,18 @@ def uDispatch (s : St) (k : Nat) (op : UOp) : St :=
       if s.held then setU { s with refs := s.refs + 1 } k (.sdAcq1 wait kill) else uNext s k
   | .drop => if s.held then uRelease { s with held := false } k else uNext s k
   | .pyexit =>
-      let s := { s with globalShutdown := true }
       -- `_threads_wakeups` holds the manager thread while it is registered
-      if s.threadReg ∧ (!mEnded s || (!s.attrsDropped && s.refs > 0)) then setU s k .peAcq else uNext s k
+      if s.threadReg ∧ (!mEnded s || (!s.attrsDropped && s.refs > 0))
+      then setU { s with globalShutdown := true } k .peAcq
+      else uNext { s with globalShutdown := true } k
 
 def stepU (s : St) (k : Nat) (v : Variant) : Option St :=
   let set (pc : UPc) (s : St) : St := setU s k pc
   match s.upc k, v with
   | .start, .ok => some (uNext s k)
-  | .api, .ok => (s.ucur k).map (uDispatch s k)
+  | .api, .ok => match s.ucur k with
+      | some op => some (uDispatch s k op)
+      | none => none
   -- submit
   | .subAcqShut t, .ok => (acq s.shut).map fun x =>
       let s := { s with shut := x, oShut := some (.U k) }
